@@ -217,7 +217,7 @@ Proof. by elim: l => [|y l IH] //=; rewrite IH. Qed.
 
 (* a period without observations contributes nothing and leaves the state as predicted *)
 Theorem empty_period a Q p (f : frec p) : step_spec a Q f -> p_ny p = 0%N ->
-  [/\ contribution (mkFper p f) = 0, qf (mkFper p f) = 0, ld (mkFper p f) = 0,
+  [/\ forall vs, contribution vs (mkFper p f) = 0, qf (mkFper p f) = 0, ld (mkFper p f) = 0,
       f_a1 f = f_a0 f & f_Q1 f = f_Q0 f].
 Proof.
 move=> sp; case: p f sp => [ny T K us v Z H D cw w0 y] f sp /= E; move: Z H D y f sp; rewrite E => Z H D y f sp.
@@ -231,13 +231,26 @@ Qed.
 
 
 (* a contribution in closed form (for a period without observations every term vanishes) *)
-Lemma contributionE (x : fper) :
-  contribution x = 2%:R^-1 * (ld x + qf x + (num_obs x)%:R * flog2pi).
+Lemma contributionE vs (x : fper) :
+  contribution vs x
+  = 2%:R^-1 * (ld x + (num_obs x)%:R * flog vs + qf x / vs + (num_obs x)%:R * flog2pi).
 Proof.
 case: x => p f; case: p f => [[|ny] T K us v Z H D cw w0 y] f; rewrite /contribution /num_obs /=.
   rewrite /ld /qf /log_det_F /pe_Fi_pe /det_Fi /= det_mx00 flog1 mulr0 [f_pe f]flatmx0 mulmx0 mxE.
-  by rewrite mul0r !addr0 mulr0.
+  by rewrite !mul0r !addr0 mulr0.
 by rewrite /ld /qf /log_det_F /pe_Fi_pe /det_Fi /= div1r.
+Qed.
+
+Lemma ld_empty (x : fper) : num_obs x = 0%N -> ld x = 0.
+Proof.
+case: x => p f; case: p f => [ny T K us v Z H D cw w0 y] f; rewrite /num_obs /= => E.
+by move: Z H D y f; rewrite E => Z H D y f; rewrite /ld /log_det_F /det_Fi /= det_mx00 flog1 mulr0.
+Qed.
+
+Lemma qf_empty (x : fper) : num_obs x = 0%N -> qf x = 0.
+Proof.
+case: x => p f; case: p f => [ny T K us v Z H D cw w0 y] f; rewrite /num_obs /= => E.
+by move: Z H D y f; rewrite E => Z H D y f; rewrite /qf /pe_Fi_pe /= [f_pe f]flatmx0 mulmx0 mxE.
 Qed.
 
 Lemma eqb0 k : Nat.eqb k 0 = (k == 0%N).
@@ -253,62 +266,90 @@ Lemma likelihood_sums (b : bool) (fs : seq fper) :
       sum_sc M (List.map pe_Fi_pe fs) = QF_of fs].
 Proof. by rewrite sum_natE sum_lgE sum_scE !Lmap_map !big_map. Qed.
 
-(* C03: without variance rescaling the total is the sum of the contributions, and it is the
-   prediction-error decomposition 1/2 (N log 2pi + sum log det F_t + sum pe_t' F_t^-1 pe_t) *)
-Theorem contributions_sum (fs : seq fper) :
-  sum_lg M (contributions fs) = l_nll (likelihood false fs)
-  /\ l_nll (likelihood false fs) = 2%:R^-1 * ((N_of fs)%:R * flog2pi + LD_of fs + QF_of fs).
+Lemma QF_empty (fs : seq fper) : N_of fs = 0%N -> QF_of fs = 0.
 Proof.
-have [EN EL EQ] := likelihood_sums false fs.
-have E2 : l_nll (likelihood false fs) = 2%:R^-1 * ((N_of fs)%:R * flog2pi + LD_of fs + QF_of fs).
-  by rewrite /likelihood EN EL EQ /= div1r.
-split=> //; rewrite E2 /contributions sum_lgE Lmap_map big_map.
-rewrite (eq_bigr _ (fun x _ => contributionE x)) -mulr_sumr !big_split /= -mulr_suml.
-rewrite /N_of /LD_of /QF_of natr_sum.
-by rewrite [X in _ * X]addrC addrA.
+rewrite /N_of /QF_of; elim: fs => [|x fs IH]; first by rewrite !big_nil.
+rewrite !big_cons => /eqP; rewrite addn_eq0 => /andP [/eqP Ex /eqP Efs].
+by rewrite (qf_empty Ex) IH // add0r.
 Qed.
 
-(* C03: with rescale_variance the reported total is the likelihood concentrated with respect to a
-   common variance factor; the contributions are NOT rescaled by the code, so they no longer sum to
-   it: the gap is 1/2 (QF - N - N log(QF / N)) *)
-Theorem rescaled_likelihood (fs : seq fper) :
-  N_of fs != 0%N -> QF_of fs != 0 ->
+(* the total in closed form *)
+Lemma nll_false (fs : seq fper) :
+  l_var_scale (likelihood false fs) = 1 /\
+  l_nll (likelihood false fs) = 2%:R^-1 * ((N_of fs)%:R * flog2pi + LD_of fs + QF_of fs).
+Proof. by have [EN EL EQ] := likelihood_sums false fs; rewrite /likelihood EN EL EQ /= div1r. Qed.
+
+Lemma nll_true (fs : seq fper) : N_of fs != 0%N ->
   let vs := QF_of fs / (N_of fs)%:R in
-  [/\ l_var_scale (likelihood true fs) = vs,
-      l_nll (likelihood true fs)
-        = 2%:R^-1 * ((N_of fs)%:R * flog2pi + (LD_of fs + (N_of fs)%:R * flog vs) + (N_of fs)%:R) &
-      sum_lg M (contributions fs) - l_nll (likelihood true fs)
-        = 2%:R^-1 * (QF_of fs - (N_of fs)%:R - (N_of fs)%:R * flog vs)].
+  l_var_scale (likelihood true fs) = vs /\
+  l_nll (likelihood true fs)
+    = 2%:R^-1 * ((N_of fs)%:R * flog2pi + (LD_of fs + (N_of fs)%:R * flog vs) + QF_of fs / vs).
 Proof.
-move=> Nnz Qnz vs.
-have [EN EL EQ] := likelihood_sums true fs.
-have [Es E2] := contributions_sum fs.
-have Nr : (N_of fs)%:R != 0 :> F by rewrite pnatr_eq0.
-have Evs : QF_of fs / vs = (N_of fs)%:R by rewrite /vs invf_div mulrCA mulfV // mulr1.
-have E1 : l_var_scale (likelihood true fs) = vs.
-  by rewrite /likelihood EN EL EQ /= eqb0 (negbTE Nnz).
-have E3 : l_nll (likelihood true fs)
-        = 2%:R^-1 * ((N_of fs)%:R * flog2pi + (LD_of fs + (N_of fs)%:R * flog vs) + (N_of fs)%:R).
-  by rewrite /likelihood EN EL EQ /= eqb0 (negbTE Nnz) /= div1r -/vs Evs.
-split=> //; rewrite Es E2 E3.
-by ring.
+move=> Nnz vs; have [EN EL EQ] := likelihood_sums true fs.
+by rewrite /likelihood EN EL EQ /= eqb0 (negbTE Nnz) /= div1r.
 Qed.
 
-(* a data set without any observation: nothing to rescale *)
-Theorem rescaled_likelihood_no_obs (fs : seq fper) :
-  N_of fs = 0%N ->
+Lemma nll_true0 (fs : seq fper) : N_of fs = 0%N ->
   l_var_scale (likelihood true fs) = 1 /\ l_nll (likelihood true fs) = 2%:R^-1 * LD_of fs.
 Proof.
 move=> N0; have [EN EL EQ] := likelihood_sums true fs.
 by rewrite /likelihood EN EL EQ N0 /= div1r mul0r add0r addr0.
 Qed.
 
+Lemma sum_contributions vs (fs : seq fper) :
+  sum_lg M (contributions vs fs)
+  = 2%:R^-1 * (LD_of fs + (N_of fs)%:R * flog vs + QF_of fs / vs + (N_of fs)%:R * flog2pi).
+Proof.
+rewrite /contributions sum_lgE Lmap_map big_map.
+rewrite (eq_bigr _ (fun x _ => contributionE vs x)) -mulr_sumr !big_split /= -!mulr_suml.
+by rewrite /N_of /LD_of /QF_of natr_sum.
+Qed.
+
+(* C03: the per-period contributions sum to the total, with and without variance rescaling *)
+Theorem contributions_sum (b : bool) (fs : seq fper) :
+  sum_lg M (contributions (l_var_scale (likelihood b fs)) fs) = l_nll (likelihood b fs).
+Proof.
+case: b.
+  case: (eqVneq (N_of fs) 0%N) => [N0|Nnz].
+    have [-> ->] := nll_true0 N0; rewrite sum_contributions N0 flog1 !mul0r divr1 !addr0.
+    by rewrite (QF_empty N0) addr0.
+  by have [-> ->] := nll_true Nnz; rewrite sum_contributions; congr (_ * _); rewrite addrC addrA.
+have [-> ->] := nll_false fs; rewrite sum_contributions flog1 mulr0 divr1 addr0.
+by congr (_ * _); ring.
+Qed.
+
+(* the prediction-error decomposition in closed form, and the concentrated likelihood *)
+Theorem likelihood_closed_form (fs : seq fper) :
+  l_nll (likelihood false fs) = 2%:R^-1 * ((N_of fs)%:R * flog2pi + LD_of fs + QF_of fs).
+Proof. by have [] := nll_false fs. Qed.
+
+(* C03: with rescale_variance the variance scale is sum pe'F^-1 pe / sum n_t and the reported total is the
+   likelihood concentrated with respect to a common variance factor *)
+Theorem rescaled_likelihood (fs : seq fper) :
+  N_of fs != 0%N -> QF_of fs != 0 ->
+  let vs := QF_of fs / (N_of fs)%:R in
+  l_var_scale (likelihood true fs) = vs /\
+  l_nll (likelihood true fs)
+    = 2%:R^-1 * ((N_of fs)%:R * flog2pi + (LD_of fs + (N_of fs)%:R * flog vs) + (N_of fs)%:R).
+Proof.
+move=> Nnz Qnz vs; have [-> ->] := nll_true Nnz; split=> //.
+have Nr : (N_of fs)%:R != 0 :> F by rewrite pnatr_eq0.
+by rewrite -/vs /vs invf_div mulrCA mulfV // mulr1.
+Qed.
+
+(* a data set without any observation: nothing to rescale *)
+Theorem rescaled_likelihood_no_obs (fs : seq fper) :
+  N_of fs = 0%N ->
+  l_var_scale (likelihood true fs) = 1 /\ l_nll (likelihood true fs) = 2%:R^-1 * LD_of fs.
+Proof. exact: nll_true0. Qed.
+
 (* C03: each contribution is the negative log density of the period's observations under the
    predictive Gaussian N(y0_t, F_t) *)
 Theorem contribution_is_nll a Q p (f : frec p) : step_spec a Q f -> f_F f \in unitmx ->
-  contribution (mkFper p f) = nll_gauss flog flog2pi (f_y0 f) (f_F f) (p_y p).
+  @contribution M n nw 1 (mkFper p f) = nll_gauss flog flog2pi (f_y0 f) (f_F f) (p_y p).
 Proof.
-move=> sp uF; rewrite contributionE /nll_gauss /ld /qf /log_det_F /pe_Fi_pe /det_Fi /num_obs /=.
+move=> sp uF; rewrite contributionE flog1 mulr0 addr0 divr1.
+rewrite /nll_gauss /ld /qf /log_det_F /pe_Fi_pe /det_Fi /num_obs /=.
 rewrite (sp_Fi sp) det_inv flogV; last by move: uF; rewrite unitmxE unitfE.
 rewrite mulN1r opprK /maha -(sp_pe sp).
 by rewrite [X in _ * X]addrC addrA.
@@ -345,7 +386,7 @@ Theorem prediction_error_decomposition a Q ps :
   l_nll (likelihood false (krun a Q ps))
   = \sum_(x <- krun a Q ps) nll_gauss flog flog2pi (f_y0 (ff x)) (f_F (ff x)) (p_y (fp x)).
 Proof.
-move=> sQ ok uF; have [<- _] := contributions_sum (krun a Q ps).
+move=> sQ ok uF; rewrite -(contributions_sum false) (proj1 (nll_false _)).
 rewrite /contributions sum_lgE Lmap_map big_map.
 move: uF (krun_chain a sQ ok); move: (krun a Q ps) => fs {sQ ok}.
 elim: fs a Q => [|x fs IH] a Q /=; first by rewrite !big_nil.
